@@ -254,6 +254,12 @@ def gen_redis(rng):
     ops = gen(rng, age=False)
     if rng.random() < 0.1:
         ops.insert(rng.randint(2, len(ops) - 4), "read -")
+    if ops[0].endswith(" huge") and rng.random() < 0.06:
+        # a real second passes in front of a ReadInflight: the entries it re-stamps (now + inflight expiry, stored in whole seconds)
+        # get other bytes than the copies handed out before, and must still be found by Remove / Replace afterwards (seed C10-6)
+        idx = [i for i, o in enumerate(ops) if o.startswith("readinflight ") and i > 2]
+        if idx:
+            ops.insert(rng.choice(idx), "wait")
     return ops
 
 class RedisStream(core.Stream):
